@@ -82,6 +82,13 @@ def write_normal(bw, rng, alphabet, lens, use_max=None, inject=None):
         put_clc_and_tokens(bw, rng, [], False, clc_lens={sym: rng.randint(2, 7)})
         return
     if inject == "symbol-count":
+        if rng.random() < .4:
+            # the largest count fields (16-bit field holding 0xfffd..0xffff: counts 65535, 65536, 65537) followed by as many
+            # tokens as a count truncated to 16 bits would ask for (65536 -> 0, 65537 -> 1): a reader that wraps accepts
+            v = rng.choice([65535, 65536, 65537, 65537])
+            toks = [(1, 0, 0)] * ((v & 0xffff) if (v & 0xffff) < 4 else 1)
+            put_clc_and_tokens(bw, rng, toks or [(1, 0, 0)][:0], True, max_symbol_value=v, clc_lens={1: 1, 0: 1} if not toks else None)
+            return
         toks = V.rle(lens)
         put_clc_and_tokens(bw, rng, toks, True, max_symbol_value=alphabet + rng.choice([1, 1, 2, 50]))
         return
